@@ -11,13 +11,11 @@
    finishes the generator) is written here by hand: src_mult_next.  Its frame keeps `multiple` (the model recomputes it
    from the two rates), hence the simulation src_next_sim rather than an equality of step functions.
 
-   DIFFERENCE found between source and model.  The source refuses when
-       output % input != 0 and input % output != 0                                  (src_refuses below)
-   the model's `refuses` still has the shape of the pinned code
-       (a > b and a mod b != 0) or (a < b and b mod a != 0).
-   They agree for positive rates (src_refuses_is, from refuses_iff) - the domain of every C14 theorem - and DIFFER for
-   negative ones: (-4, 2) is accepted by the source (-4 % 2 == 0) and refused by the model (src_refuses_differs_negative).
-   Negative clock rates are outside the property; the model is not changed here. *)
+   The refusal test.  The source refuses when  output % input != 0 and input % output != 0  (src_refuses below); the model's
+   `refuses` is now that very expression (it had kept the shape of the pinned code, `(a > b and a mod b != 0) or (a < b and b mod a
+   != 0)`, equal for positive rates - MultiplierProofs.refuses_pinned_shape - and different for negative ones: (-4, 2) is accepted
+   by the source and was refused by the old definition).  src_refuses_is is by reflexivity, for ALL integers, and the tie of
+   the statements before the loop (src_mult_init_is) no longer needs the rates to be non-negative. *)
 From Isobar Require Import Base.Prelude Base.PyLoop Clock.Multiplier Clock.MultiplierProofs Generated.TablesMult.
 Local Open Scope Z_scope.
 
@@ -29,11 +27,16 @@ Definition model_init (out inn : rate) : option ((Z * Z) * Z) :=
 
 Definition rate_nonneg (r : rate) : Prop := match r with Some x => 0 <= x | None => True end.
 
-Lemma src_refuses_is a b : 0 < a -> 0 < b -> src_refuses a b = refuses a b.
-Proof. intros Ha Hb. rewrite refuses_iff by assumption. unfold src_refuses. rewrite negb_orb. reflexivity. Qed.
+Lemma src_refuses_eq a b : src_refuses a b = refuses a b.
+Proof. reflexivity. Qed.
 
-Example src_refuses_differs_negative : src_refuses (-4) 2 = false /\ refuses (-4) 2 = true.
-Proof. split; vm_compute; reflexivity. Qed.
+(* (kept with its hypotheses for the users in Props/C14Src.v) *)
+Lemma src_refuses_is a b : 0 < a -> 0 < b -> src_refuses a b = refuses a b.
+Proof. intros _ _. reflexivity. Qed.
+
+(* negative rates too: what the source accepts the model accepts *)
+Example src_refuses_agrees_negative : src_refuses (-4) 2 = false /\ refuses (-4) 2 = false /\ refuses (-4) 3 = true.
+Proof. repeat split; vm_compute; reflexivity. Qed.
 
 (* the source, read with the exact test it contains, for all rates (also negative ones) *)
 Lemma src_mult_init_exact out inn :
@@ -48,13 +51,16 @@ Proof.
   - destruct (a =? 0); reflexivity.
 Qed.
 
-Lemma src_mult_init_is out inn : rate_nonneg out -> rate_nonneg inn -> src_mult_init out inn = model_init out inn.
+(* for ALL rates, negative ones included *)
+Lemma src_mult_init_eq out inn : src_mult_init out inn = model_init out inn.
 Proof.
-  intros Ho Hi. rewrite src_mult_init_exact. unfold model_init, multiple_of, truthy.
-  destruct out as [a|], inn as [b|]; try reflexivity. cbn in Ho, Hi.
-  destruct (a =? 0) eqn:Ea; destruct (b =? 0) eqn:Eb; try reflexivity. cbn [negb andb].
-  rewrite src_refuses_is by lia. reflexivity.
+  rewrite src_mult_init_exact. unfold model_init, multiple_of, truthy.
+  destruct out as [a|], inn as [b|]; try reflexivity.
+  destruct (a =? 0) eqn:Ea; destruct (b =? 0) eqn:Eb; reflexivity.
 Qed.
+
+Lemma src_mult_init_is out inn : rate_nonneg out -> rate_nonneg inn -> src_mult_init out inn = model_init out inn.
+Proof. intros _ _. apply src_mult_init_eq. Qed.
 
 (* no `%` or `/` by zero on any path: the truthiness test protects them *)
 Lemma src_mult_init_always_defined out inn : src_mult_init_defined out inn = true.
